@@ -173,11 +173,18 @@ def g_split(rng, seq):
 
 def g_scale(rng, seq):
     r = rng.random()
-    if r < 0.03:
+    if r < 0.06:
         f = 0.5
     else:
         f = rng.choice([1, 2, 2, 3, 4])
-    return {"factor": f, "q": rng.random() < 0.5}
+    # meta sequence: default, the receiver itself (it is only read: a natural "use its own signatures" call), or another one
+    meta = None
+    r2 = rng.random()
+    if r2 < 0.15 or (f < 1 and r2 < 0.5):
+        meta = "self"
+    elif r2 < 0.25:
+        meta = _arg_seq(rng)
+    return {"factor": f, "q": rng.random() < 0.5, "meta": meta}
 
 
 def g_transpose(rng, seq):
@@ -340,7 +347,12 @@ def a_set_channel(s, a):
 
 
 def a_scale(s, a):
-    s.scale(a["factor"], None, a["q"])
+    meta = a.get("meta")
+    if meta == "self":
+        meta = s
+    elif meta is not None:
+        meta = _build(meta)
+    s.scale(a["factor"], meta, a["q"])
 
 
 def a_transpose(s, a):
